@@ -14,6 +14,7 @@
    are an adjoint pair; adj (fwd x) = x for 'ortho' and div (fwd x) = x for
    EVERY norm when n <= N, with both shifts. *)
 From PV Require Export DFT.
+From PV Require Import MatT.
 Local Open Scope R_scope.
 
 Inductive fnorm := Ortho | NoneN | OneOverN.
@@ -403,6 +404,645 @@ Proof. intros Hx Hy.
     by (field; apply cfac_nz).
   rewrite m_over_c. reflexivity. Qed.
 End RealFFT.
+
+(* ------------------------------------------------------------------ *)
+(* real FFT: Hermitian symmetry and the real-input inversion / isometry *)
+Section RealIso.
+Variable F : FieldS.
+Add Field Fri : (fth F).
+Notation vec := (list F).
+Notation cj := (conj F).
+Variable w : F.
+Variable N : nat.
+Variable s2 : F.
+Hypothesis s2_sq : s2 * s2 = 1 + 1.
+Hypothesis s2_real : cj s2 = s2.
+Hypothesis two_nz : (1 + 1 : F) <> 0.
+Hypothesis w_pow : rpow w N = 1.
+Hypothesis w_unit : w * cj w = 1.
+Hypothesis w_orth : forall d, 0 < d -> d < N -> bsum (fun k => rpow w (d * k)) N = 0.
+Notation K := (N / 2 + 1)%nat.
+Notation half := (1 / (1 + 1)).
+Notation mf := (mfac F N).
+Notation cf := (cfac F N s2).
+Notation r2 := (re2 F).
+
+Lemma half_re2_real a : cj a = a -> half * r2 a = a.
+Proof. intros H; unfold re2; rewrite H. field. exact two_nz. Qed.
+Lemma half_re2_two a : half * r2 ((1 + 1) * a) = a + cj a.
+Proof. unfold re2. rewrite conj_mul, conj_add, conj_one. field. exact two_nz. Qed.
+Lemma re2_add' a b : r2 (a + b) = r2 a + r2 b.
+Proof. unfold re2; rewrite conj_add; ring. Qed.
+
+(* sum of a Hermitian-symmetric sequence from its first N/2+1 terms, as C2R does *)
+Section Herm.
+Variable T : nat -> F.
+Hypothesis T0 : cj (T 0%nat) = T 0%nat.
+Hypothesis Ts : forall k, 0 < k -> k < N -> cj (T k) = T (N - k)%nat.
+
+Lemma mf0 : mf 0%nat = 1.
+Proof. reflexivity. Qed.
+Lemma herm_odd M : N = (2 * M + 1)%nat ->
+  half * r2 (bsum (fun k => mf k * T k) K) = bsum T N.
+Proof. intros HN.
+  assert (HK : (N / 2 = M)%nat) by (subst N; symmetry; apply (Nat.div_unique _ 2 M 1); lia).
+  assert (HM : ((N - 1) / 2 = M)%nat) by (subst N; replace (2 * M + 1 - 1)%nat with (M * 2)%nat by lia; apply Nat.div_mul; lia).
+  replace K with (S M) by lia. rewrite bsum_shift, mf0.
+  rewrite (bsum_ext F (fun k => mf (S k) * T (S k)) (fun k => (1 + 1) * T (S k))).
+  2:{ intros k Hk. unfold mfac, midb. rewrite HM.
+      replace (Nat.ltb (S k) (1 + M)) with true by (symmetry; apply Nat.ltb_lt; lia). reflexivity. }
+  rewrite bsum_scale, re2_add'.
+  replace (half * (r2 (1 * T 0%nat) + r2 ((1 + 1) * bsum (fun k => T (S k)) M)))
+    with (half * r2 (T 0%nat) + half * r2 ((1 + 1) * bsum (fun k => T (S k)) M)) by (replace (1 * T 0%nat) with (T 0%nat) by ring; ring).
+  rewrite half_re2_real by exact T0. rewrite half_re2_two.
+  replace (bsum T N) with (bsum T (S (M + M))) by (f_equal; lia).
+  rewrite bsum_shift, bsum_split. rewrite (bsum_rev F (fun k => T (S (M + k))) M).
+  rewrite conj_bsum.
+  rewrite (bsum_ext F (fun k => T (S (M + (M - 1 - k)))) (fun k => cj (T (S k)))).
+  2:{ intros k Hk. rewrite Ts by lia. f_equal. lia. }
+  ring. Qed.
+Lemma herm_even M : N = (2 * M + 2)%nat ->
+  half * r2 (bsum (fun k => mf k * T k) K) = bsum T N.
+Proof. intros HN.
+  assert (HK : (N / 2 = S M)%nat) by (subst N; replace (2 * M + 2)%nat with (S M * 2)%nat by lia; apply Nat.div_mul; lia).
+  assert (HM : ((N - 1) / 2 = M)%nat) by (subst N; symmetry; apply (Nat.div_unique _ 2 M 1); lia).
+  replace K with (S (S M)) by lia. rewrite bsum_shift, mf0.
+  simpl bsum at 1.
+  rewrite (bsum_ext F (fun k => mf (S k) * T (S k)) (fun k => (1 + 1) * T (S k))).
+  2:{ intros k Hk. unfold mfac, midb. rewrite HM.
+      replace (Nat.ltb (S k) (1 + M)) with true by (symmetry; apply Nat.ltb_lt; lia). reflexivity. }
+  assert (Em : mf (S M) = 1).
+  { unfold mfac, midb. rewrite HM. replace (Nat.ltb (S M) (1 + M)) with false by (symmetry; apply Nat.ltb_ge; lia).
+    rewrite Bool.andb_false_r. reflexivity. }
+  rewrite Em, bsum_scale.
+  assert (Tm : cj (T (S M)) = T (S M)) by (rewrite Ts by lia; f_equal; lia).
+  replace (1 * T 0%nat) with (T 0%nat) by ring. replace (1 * T (S M)) with (T (S M)) by ring.
+  rewrite !re2_add'.
+  replace (half * (r2 (T 0%nat) + (r2 ((1 + 1) * bsum (fun k => T (S k)) M) + r2 (T (S M)))))
+    with (half * r2 (T 0%nat) + half * r2 ((1 + 1) * bsum (fun k => T (S k)) M) + half * r2 (T (S M))) by ring.
+  rewrite (half_re2_real (T 0%nat)) by exact T0. rewrite (half_re2_real (T (S M))) by exact Tm. rewrite half_re2_two.
+  replace (bsum T N) with (bsum T (S (M + S M))) by (f_equal; lia).
+  rewrite bsum_shift, bsum_split. rewrite (bsum_shift F (fun k => T (S (M + k)))).
+  rewrite (bsum_rev F (fun k => T (S (M + S k))) M).
+  rewrite conj_bsum.
+  rewrite (bsum_ext F (fun k => T (S (M + S (M - 1 - k)))) (fun k => cj (T (S k)))).
+  2:{ intros k Hk. rewrite Ts by lia. f_equal. lia. }
+  replace (M + 0)%nat with M by lia. ring. Qed.
+Lemma herm_sum : 0 < N -> half * r2 (bsum (fun k => mf k * T k) K) = bsum T N.
+Proof. intros HN. destruct (Nat.Even_or_Odd N) as [[M E]|[M E]].
+  - destruct M as [|M]; [lia|]. apply (herm_even M). lia.
+  - apply (herm_odd M). lia. Qed.
+End Herm.
+
+Lemma cw_pow : rpow (cj w) N = 1.
+Proof. rewrite <- conj_rpow, w_pow. apply conj_one. Qed.
+Lemma rpow_neg (u v : F) i k : u * v = 1 -> rpow u N = 1 -> (k <= N)%nat ->
+  rpow u (i * (N - k)) = rpow v (i * k).
+Proof. intros Huv Hu Hk.
+  assert (E : rpow u (i * k) * rpow v (i * k) = 1) by (rewrite <- rpow_mul_base, Huv; apply rpow_one).
+  replace (rpow u (i * (N - k))) with (rpow u (i * (N - k)) * (rpow u (i * k) * rpow v (i * k))) by (rewrite E; ring).
+  replace (rpow u (i * (N - k)) * (rpow u (i * k) * rpow v (i * k)))
+    with (rpow u (i * (N - k) + i * k) * rpow v (i * k)) by (rewrite rpow_add; ring).
+  replace (i * (N - k) + i * k)%nat with (N * i)%nat by nia.
+  rewrite rpow_mul, Hu, rpow_one. ring. Qed.
+
+Section RealInput.
+Variable x : vec.
+Hypothesis x_real : vconj F x = x.
+Lemma x_real_nth j : cj (nth j x 0) = nth j x 0.
+Proof. pose proof (map_nth cj x 0 j) as H. rewrite conj_zero in H. fold (vconj F x) in H. rewrite x_real in H. auto. Qed.
+Definition Xk (k : nat) : F := bsum (fun i => rpow w (i * k) * nth i x 0) (length x).
+(* Hermitian symmetry of the spectrum of a real vector *)
+Lemma Xk_conj k : cj (Xk k) = bsum (fun i => rpow (cj w) (i * k) * nth i x 0) (length x).
+Proof. unfold Xk. rewrite conj_bsum. apply bsum_ext; intros i _. rewrite conj_mul, conj_rpow, x_real_nth; auto. Qed.
+Lemma Xk_herm k : (k <= N)%nat -> cj (Xk k) = Xk (N - k).
+Proof. intros Hk. rewrite Xk_conj. unfold Xk. apply bsum_ext; intros i _.
+  rewrite (rpow_neg w (cj w) i k w_unit w_pow Hk); auto. Qed.
+Definition Tjk (j k : nat) : F := rpow (cj w) (j * k) * Xk k.
+Lemma Tjk_0 j : cj (Tjk j 0) = Tjk j 0.
+Proof. unfold Tjk. rewrite conj_mul, Nat.mul_0_r. simpl rpow. rewrite conj_one.
+  rewrite (Xk_herm 0) by lia. rewrite Nat.sub_0_r. f_equal.
+  unfold Xk. apply bsum_ext; intros i _.
+  rewrite Nat.mul_0_r. replace (rpow w (i * N)) with (r1 F); [reflexivity|].
+  rewrite (Nat.mul_comm i N), rpow_mul, w_pow, rpow_one; auto. Qed.
+Lemma Tjk_sym j k : 0 < k -> k < N -> cj (Tjk j k) = Tjk j (N - k).
+Proof. intros H1 H2. unfold Tjk. rewrite conj_mul, conj_rpow, conj_invol, Xk_herm by lia. f_equal.
+  symmetry. apply rpow_neg; [rewrite <- w_unit; ring | apply cw_pow | lia]. Qed.
+
+(* INVERSION for real input with zero padding: N * irfft(slice/sqrt2 (slice*sqrt2 (rfft x))) = N . x *)
+Theorem rfft_inversion : (length x <= N)%nat -> 0 < N ->
+  radj F w N s2 (length x) (rfwd F w N s2 x) = vscale F (of_nat F N) x.
+Proof. intros L HN. rewrite <- (tab_nth F x) at 3. rewrite vscale_tab.
+  unfold radj, lib_c2r. apply tab_ext; intros j Hj.
+  rewrite (bsum_ext F _ (fun k => mf k * Tjk j k)).
+  2:{ intros k Hk. rewrite nth_tab by auto. unfold rfwd. rewrite nth_tab by auto. unfold lib_rfft.
+      rewrite (dft_entry F) by auto. fold (Xk k). unfold Tjk. f_equal. f_equal. field. apply (cfac_nz F N s2 s2_sq two_nz). }
+  rewrite (herm_sum (Tjk j) (Tjk_0 j) (Tjk_sym j) HN).
+  pose proof (dft_inversion F w N w_unit w_orth x L) as E.
+  apply (f_equal (fun v => nth j v 0)) in E. rewrite nth_vscale in E. rewrite <- E.
+  rewrite (dft_entry F) by auto. rewrite dft_length. apply bsum_ext; intros k Hk.
+  rewrite (dft_entry F) by auto. unfold Tjk, Xk. rewrite (Nat.mul_comm k j). reflexivity. Qed.
+End RealInput.
+End RealIso.
+
+(* ------------------------------------------------------------------ *)
+(* real=True branch of _FFT_numpy / _FFT_scipy with norms and shifts     *)
+Section RealEngine.
+Variable F : FieldS.
+Add Field Fre : (fth F).
+Notation vec := (list F).
+Notation cj := (conj F).
+Notation vs := (vscale F).
+Variable w : F.
+Variable N : nat.
+Variable s2 sq : F.
+Notation nN := (of_nat F N).
+Hypothesis s2_sq : s2 * s2 = 1 + 1.
+Hypothesis two_nz : (1 + 1 : F) <> 0.
+Hypothesis w_pow : rpow w N = 1.
+Hypothesis w_unit : w * cj w = 1.
+Hypothesis w_orth : forall d, 0 < d -> d < N -> bsum (fun k => rpow w (d * k)) N = 0.
+Hypothesis N_nz : nN <> 0.
+Hypothesis sq_sq : sq * sq = 1 / nN.
+Hypothesis sq_real : cj sq = sq.
+Notation K := (N / 2 + 1)%nat.
+Notation cf := (cfac F N s2).
+
+Definition sl_mul (y : vec) : vec := tab (fun k => cf k * nth k y 0) K.      (* y[..., 1:1+(nfft-1)//2] *= sqrt(2) *)
+Definition sl_div (y : vec) : vec := tab (fun k => nth k y 0 / cf k) K.      (* x[..., 1:1+(nfft-1)//2] /= sqrt(2) *)
+Definition lib_rfft_n (ortho : bool) (x : vec) : vec :=
+  let y := dft F w K (firstn N x) in if ortho then vs sq y else y.
+Definition lib_irfft_n (ortho : bool) (y : vec) : vec :=
+  let z := lib_c2r F w N N y in if ortho then vs sq z else vs (1 / nN) z.
+Definition rfwd_np (c : fcfg) (x : vec) : vec :=
+  let x := if c_sb c then ifftshift F x else x in
+  let y := sl_mul (lib_rfft_n (is_ortho (c_norm c)) x) in
+  let y := match c_norm c with OneOverN => vs (scale_np F N c) y | _ => y end in
+  if c_sa c then fftshift F y else y.
+Definition radj_np (c : fcfg) (y : vec) : vec :=
+  let y := if c_sa c then ifftshift F y else y in
+  let z := lib_irfft_n (is_ortho (c_norm c)) (sl_div y) in
+  let z := match c_norm c with NoneN => vs (scale_np F N c) z | _ => z end in
+  let z := fit F (c_n c) z in
+  if c_sb c then fftshift F z else z.
+Definition rdiv_np (c : fcfg) (y : vec) : vec :=
+  match c_norm c with Ortho => radj_np c y | _ => vdiv F (radj_np c y) (scale_np F N c) end.
+
+Definition rcore_fwd (c : fcfg) (x : vec) : vec :=
+  let x := if c_sb c then ifftshift F x else x in
+  let y := rfwd F w N s2 (firstn N x) in
+  if c_sa c then fftshift F y else y.
+Definition rcore_adj (c : fcfg) (y : vec) : vec :=
+  let y := if c_sa c then ifftshift F y else y in
+  let z := fit F (c_n c) (radj F w N s2 N y) in
+  if c_sb c then fftshift F z else z.
+
+Lemma sl_mul_vscale a y : sl_mul (vs a y) = vs a (sl_mul y).
+Proof. unfold sl_mul. rewrite vscale_tab. apply tab_ext; intros k _. rewrite nth_vscale. ring. Qed.
+Lemma sl_div_vscale a y : sl_div (vs a y) = vs a (sl_div y).
+Proof. unfold sl_div. rewrite vscale_tab. apply tab_ext; intros k _. rewrite nth_vscale. field.
+  apply (cfac_nz F N s2 s2_sq two_nz). Qed.
+Lemma c2r_vscale a n y : cj a = a -> lib_c2r F w N n (vs a y) = vs a (lib_c2r F w N n y).
+Proof. intros Ha. unfold lib_c2r. rewrite vscale_tab. apply tab_ext; intros j _.
+  rewrite (bsum_ext F _ (fun k => a * (mfac F N k * (rpow (cj w) (j * k) * nth k y 0)))) by (intros; rewrite nth_vscale; ring).
+  rewrite bsum_scale. unfold re2. rewrite conj_mul, Ha. ring. Qed.
+Lemma radj_vscale a n y : cj a = a -> radj F w N s2 n (vs a y) = vs a (radj F w N s2 n y).
+Proof. intros Ha. unfold radj. fold (sl_div (vs a y)). fold (sl_div y). rewrite sl_div_vscale. apply c2r_vscale; auto. Qed.
+Lemma rfwd_as_sl x : rfwd F w N s2 x = sl_mul (dft F w K x).
+Proof. reflexivity. Qed.
+Lemma radj_as_sl n y : radj F w N s2 n y = lib_c2r F w N n (sl_div y).
+Proof. reflexivity. Qed.
+Lemma iN_real : cj (1 / nN) = 1 / nN.
+Proof. assert (E : cj (1 / nN) * nN = r1 F).
+  { replace (cj (1 / nN) * nN) with (cj (1 / nN * nN)) by (rewrite conj_mul, (conj_of_nat F); auto).
+    replace (1 / nN * nN) with (r1 F) by (field; exact N_nz). apply conj_one. }
+  replace (cj (1 / nN)) with (cj (1 / nN) * nN * (1 / nN)) by (field; exact N_nz).
+  rewrite E. field. exact N_nz. Qed.
+Lemma fscale_re c : cj (fscale F N sq c) = fscale F N sq c.
+Proof. unfold fscale. destruct (c_norm c); auto using conj_one, iN_real. Qed.
+
+Lemma sqn : sq <> 0. Proof. exact (sq_nz F N N_nz sq sq_sq). Qed.
+Lemma iNn : 1 / nN <> 0. Proof. exact (iN_nz F N N_nz). Qed.
+Lemma onen : r1 F <> 0. Proof. exact (F_1_neq_0 (fth F)). Qed.
+Ltac rnz := solve [ repeat split; first [ exact sqn | exact N_nz | exact iNn | exact onen ] ].
+
+Lemma rfwd_np_nf c x : rfwd_np c x = vs (fscale F N sq c) (rcore_fwd c x).
+Proof. destruct c as [nm n sb sa]; unfold rfwd_np, rcore_fwd, fscale, scale_np, lib_rfft_n; simpl.
+  rewrite !rfwd_as_sl.
+  destruct nm, sb, sa; simpl; rewrite ?sl_mul_vscale, ?(fftshift_vscale F), ?vscale_vscale;
+  first [ reflexivity | symmetry; apply vscale_one ]. Qed.
+Lemma radj_np_nf c y : radj_np c y = vs (fscale F N sq c) (rcore_adj c y).
+Proof. destruct c as [nm n sb sa]; unfold radj_np, rcore_adj, fscale, scale_np, lib_irfft_n; simpl.
+  rewrite !radj_as_sl.
+  destruct nm, sb, sa; simpl; rewrite ?(fit_vscale F), ?(fftshift_vscale F), ?vscale_vscale;
+  first [ reflexivity | rewrite <- (vscale_one F) at 1; apply f_equal2; auto; field; rnz
+        | apply f_equal2; auto; field; rnz ]. Qed.
+Lemma rdiv_np_nf c y : rdiv_np c y = vs (dscale F N sq c) (rcore_adj c y).
+Proof. unfold rdiv_np. rewrite radj_np_nf. destruct c as [nm n sb sa]; unfold dscale, fscale, scale_np; simpl.
+  destruct nm; simpl; auto.
+  - rewrite (vdiv_vscale F _ _ N_nz), vscale_vscale. apply f_equal2; auto. field; rnz.
+  - rewrite (vdiv_vscale F _ _ iNn), vscale_vscale. apply f_equal2; auto. field; rnz. Qed.
+
+Lemma vconj_rotl k (x : vec) : vconj F (rotl F k x) = rotl F k (vconj F x).
+Proof. unfold vconj, rotl. rewrite map_app, firstn_map, skipn_map; auto. Qed.
+Lemma vconj_ifftshift (x : vec) : vconj F x = x -> vconj F (ifftshift F x) = ifftshift F x.
+Proof. intros H. unfold ifftshift. rewrite vconj_rotl, H; auto. Qed.
+
+Lemma rcore_inverse c x : vconj F x = x -> length x = c_n c -> (c_n c <= N)%nat -> 0 < N ->
+  rcore_adj c (rcore_fwd c x) = vs nN x.
+Proof. intros Hr H L HN. unfold rcore_adj, rcore_fwd.
+  set (x1 := if c_sb c then ifftshift F x else x).
+  assert (H1 : length x1 = c_n c) by (unfold x1; destruct (c_sb c); rewrite ?(ifftshift_length F); auto).
+  assert (R1 : vconj F x1 = x1) by (unfold x1; destruct (c_sb c); auto using vconj_ifftshift).
+  assert (E : (if c_sa c then ifftshift F (if c_sa c then fftshift F (rfwd F w N s2 (firstn N x1)) else rfwd F w N s2 (firstn N x1))
+               else (if c_sa c then fftshift F (rfwd F w N s2 (firstn N x1)) else rfwd F w N s2 (firstn N x1)))
+              = rfwd F w N s2 x1).
+  { rewrite firstn_all2 by lia. destruct (c_sa c); auto. apply (ifftshift_fftshift F). }
+  rewrite E.
+  assert (Ef : fit F (c_n c) (radj F w N s2 N (rfwd F w N s2 x1)) = radj F w N s2 (c_n c) (rfwd F w N s2 x1)).
+  { unfold fit, radj, lib_c2r. rewrite tab_length. replace (c_n c - N)%nat with 0%nat by lia. simpl.
+    rewrite app_nil_r. apply firstn_tab; auto. }
+  rewrite Ef, <- H1.
+  rewrite (rfft_inversion F w N s2 s2_sq two_nz w_pow w_unit w_orth x1 R1) by lia.
+  unfold x1. destruct (c_sb c); auto. rewrite (fftshift_vscale F), (fftshift_ifftshift F); auto. Qed.
+
+Lemma rcore_adj_vscale a c y : cj a = a -> rcore_adj c (vs a y) = vs a (rcore_adj c y).
+Proof. intros Ha. unfold rcore_adj.
+  destruct (c_sa c), (c_sb c); rewrite ?(ifftshift_vscale F), ?radj_vscale, ?(fit_vscale F), ?(fftshift_vscale F); auto. Qed.
+
+(* '/' inverts for every norm; the adjoint inverts for ortho: REAL input, n <= nfft, both shifts *)
+Theorem rfft_np_div_inverts c x : vconj F x = x -> length x = c_n c -> (c_n c <= N)%nat -> 0 < N ->
+  rdiv_np c (rfwd_np c x) = x.
+Proof. intros Hr H L HN. rewrite rfwd_np_nf, rdiv_np_nf, rcore_adj_vscale by apply fscale_re.
+  rewrite rcore_inverse, !vscale_vscale by auto.
+  rewrite <- (vscale_one F x) at 2. apply f_equal2; auto. unfold dscale, fscale.
+  destruct (c_norm c); try (field; exact N_nz).
+  replace (sq * sq * nN) with (1 / nN * nN) by (rewrite <- sq_sq; ring). field. exact N_nz. Qed.
+Theorem rfft_np_unitary_ortho c x : c_norm c = Ortho -> vconj F x = x -> length x = c_n c -> (c_n c <= N)%nat -> 0 < N ->
+  radj_np c (rfwd_np c x) = x.
+Proof. intros Ho Hr H L HN. rewrite <- (rfft_np_div_inverts c x Hr H L HN) at 2.
+  rewrite radj_np_nf, rdiv_np_nf. unfold dscale, fscale. rewrite Ho. auto. Qed.
+End RealEngine.
+
+(* ------------------------------------------------------------------ *)
+(* 2-D: lifting a 1-D map along the rows / the columns of a matrix     *)
+Section Lift2D.
+Variable R : CRing.
+Add Ring Rl2 : (rth R).
+Notation vec := (list R).
+Notation mat := (list (list R)).
+Notation tr := (transpose R).
+
+Definition rowsL (f : vec -> vec) (X : mat) : mat := map f X.                  (* along the LAST axis *)
+Definition colsL (f : vec -> vec) (c m : nat) (X : mat) : mat :=               (* along the FIRST axis: c columns, fibres -> length m *)
+  tr m (map f (tr c X)).
+Definition msc (s : R) (X : mat) : mat := map (vscale R s) X.
+
+Lemma wfM_map (f : vec -> vec) n m (X : mat) :
+  (forall x, length x = n -> length (f x) = m) -> wfM R n X -> wfM R m (map f X).
+Proof. intros H W. unfold wfM in *. apply Forall_map. eapply Forall_impl; [|exact W]. intros x Hx; simpl; auto. Qed.
+Lemma wfM_firstn n k (X : mat) : wfM R n X -> wfM R n (firstn k X).
+Proof. unfold wfM; intros W; revert k; induction W; intros [|k]; simpl; constructor; auto. Qed.
+Lemma map2_cons_map (g : vec -> vec) (h : R -> R) (r : vec) (T : mat) :
+  (forall a t, g (a :: t) = h a :: g t) ->
+  map g (map2 cons r T) = map2 cons (map h r) (map g T).
+Proof. intros H. revert T; induction r as [|a r IH]; intros [|t T]; simpl; auto. rewrite H, IH; auto. Qed.
+
+(* transpose vs cropping / scaling *)
+Lemma map_firstn_nils k m : map (firstn k) (repeat (@nil R) m) = repeat [] m.
+Proof. induction m; simpl; auto. rewrite IHm. destruct k; auto. Qed.
+Lemma map_firstn0 (T : mat) : map (firstn 0) T = repeat [] (length T).
+Proof. induction T; simpl; auto. f_equal; auto. Qed.
+Lemma map_firstn_S k (r : vec) (T : mat) : map (firstn (S k)) (map2 cons r T) = map2 cons r (map (firstn k) T).
+Proof. revert T; induction r as [|a r IH]; intros [|t T]; simpl; auto. f_equal; auto. Qed.
+Lemma tr_firstn m k (L : mat) : wfM R m L -> tr m (firstn k L) = map (firstn k) (tr m L).
+Proof. revert k; induction L as [|r L IH]; intros k W.
+  - rewrite firstn_nil. simpl. rewrite map_firstn_nils; auto.
+  - destruct k as [|k].
+    + simpl firstn. simpl tr at 1. rewrite map_firstn0, transpose_length; auto.
+    + inversion W; subst.
+      change (firstn (S k) (r :: L)) with (r :: firstn k L).
+      change (tr (length r) (r :: firstn k L)) with (map2 cons r (tr (length r) (firstn k L))).
+      change (tr (length r) (r :: L)) with (map2 cons r (tr (length r) L)).
+      rewrite IH by auto. rewrite map_firstn_S; auto. Qed.
+Lemma tr_crop_rows c k (X : mat) : wfM R c X -> (k <= c)%nat -> tr k (map (firstn k) X) = firstn k (tr c X).
+Proof. intros W L.
+  assert (W' := wfM_transpose R c X W).
+  rewrite <- (transpose_involutive R c X W) at 1.
+  rewrite <- tr_firstn by auto.
+  assert (Wk : wfM R (length X) (firstn k (tr c X))) by (apply wfM_firstn; auto).
+  pose proof (transpose_involutive R _ _ Wk) as E.
+  rewrite firstn_length, (transpose_length R c X W), Nat.min_l in E by auto. exact E. Qed.
+
+Lemma map2_cons_vscale s (r : vec) (T : mat) :
+  map (vscale R s) (map2 cons r T) = map2 cons (vscale R s r) (map (vscale R s) T).
+Proof. revert T; induction r as [|a r IH]; intros [|t T]; simpl; auto. f_equal; auto. Qed.
+Lemma msc_nils s m : msc s (repeat [] m) = repeat [] m.
+Proof. induction m; simpl; auto. unfold msc in *; rewrite IHm; auto. Qed.
+Lemma tr_msc s c (M : mat) : tr c (msc s M) = msc s (tr c M).
+Proof. induction M as [|r M IH].
+  - simpl. rewrite msc_nils; auto.
+  - change (tr c (msc s (r :: M))) with (map2 cons (vscale R s r) (tr c (msc s M))).
+    change (tr c (r :: M)) with (map2 cons r (tr c M)).
+    rewrite IH. unfold msc. rewrite map2_cons_vscale; auto. Qed.
+Lemma msc_msc a b X : msc a (msc b X) = msc (a * b) X.
+Proof. unfold msc. rewrite map_map. apply map_ext; intros; apply vscale_vscale. Qed.
+Lemma msc_one X : msc 1 X = X.
+Proof. unfold msc. rewrite <- (map_id X) at 2. apply map_ext; intros; apply vscale_one. Qed.
+Lemma msc_firstn s k X : firstn k (msc s X) = msc s (firstn k X).
+Proof. unfold msc. apply firstn_map. Qed.
+Lemma msc_crop1 s k X : map (firstn k) (msc s X) = msc s (map (firstn k) X).
+Proof. unfold msc. rewrite !map_map. apply map_ext; intros. unfold vscale. apply firstn_map. Qed.
+Lemma rowsL_msc f s X : (forall a x, f (vscale R a x) = vscale R a (f x)) -> rowsL f (msc s X) = msc s (rowsL f X).
+Proof. intros H. unfold rowsL, msc. rewrite !map_map. apply map_ext; intros; apply H. Qed.
+Lemma colsL_msc f c m s X : (forall a x, f (vscale R a x) = vscale R a (f x)) ->
+  colsL f c m (msc s X) = msc s (colsL f c m X).
+Proof. intros H. unfold colsL. rewrite tr_msc. fold (rowsL f (msc s (tr c X))). rewrite rowsL_msc by auto.
+  apply tr_msc. Qed.
+
+Lemma wfM_colsL f c m X : wfM R c X -> (forall x, length x = length X -> length (f x) = m) ->
+  wfM R c (colsL f c m X) /\ length (colsL f c m X) = m.
+Proof. intros W Hf. unfold colsL.
+  assert (W1 : wfM R (length X) (tr c X)) by (apply wfM_transpose; auto).
+  assert (W2 : wfM R m (map f (tr c X))) by (eapply wfM_map; eauto).
+  split.
+  - pose proof (wfM_transpose R m _ W2) as W3. rewrite map_length, (transpose_length R c X W) in W3. exact W3.
+  - apply transpose_length; auto. Qed.
+(* crop along the rows commutes with a map along the columns *)
+Lemma colsL_crop1 f c m k X : wfM R c X -> (k <= c)%nat -> (forall x, length x = length X -> length (f x) = m) ->
+  map (firstn k) (colsL f c m X) = colsL f k m (map (firstn k) X).
+Proof. intros W L Hf. unfold colsL. rewrite (tr_crop_rows c k X W L).
+  rewrite <- firstn_map. rewrite tr_firstn; auto.
+  eapply wfM_map; [|apply wfM_transpose; auto]. auto. Qed.
+Lemma colsL_compose f g c m m' X : wfM R c X -> (forall x, length x = length X -> length (f x) = m) ->
+  colsL g c m' (colsL f c m X) = colsL (fun x => g (f x)) c m' X.
+Proof. intros W Hf. unfold colsL.
+  assert (W2 : wfM R m (map f (tr c X))) by (eapply wfM_map; [|apply wfM_transpose; auto]; auto).
+  pose proof (transpose_involutive R m _ W2) as E. rewrite map_length, (transpose_length R c X W) in E.
+  rewrite E, map_map. auto. Qed.
+Lemma colsL_crop0 f c m k X : wfM R c X -> (k <= m)%nat -> (forall x, length x = length X -> length (f x) = m) ->
+  firstn k (colsL f c m X) = colsL (fun x => firstn k (f x)) c k X.
+Proof. intros W L Hf. unfold colsL.
+  assert (W2 : wfM R m (map f (tr c X))) by (eapply wfM_map; [|apply wfM_transpose; auto]; auto).
+  rewrite <- (tr_crop_rows m k _ W2 L). rewrite map_map. auto. Qed.
+Lemma colsL_scalar (h : vec -> vec) s c X : wfM R c X -> (forall x, length x = length X -> h x = vscale R s x) ->
+  colsL h c (length X) X = msc s X.
+Proof. intros W Hh. unfold colsL.
+  assert (W1 : wfM R (length X) (tr c X)) by (apply wfM_transpose; auto).
+  rewrite (map_ext_in h (vscale R s)).
+  2:{ intros x Hx. apply Hh. apply (proj1 (Forall_forall _ _) W1); auto. }
+  fold (msc s (tr c X)). rewrite tr_msc. rewrite transpose_involutive; auto. Qed.
+
+(* rotation of the outer list (shift along the first axis) *)
+Definition rotlA {A} (k : nat) (l : list A) : list A := skipn k l ++ firstn k l.
+Lemma rotlA_length {A} k (l : list A) : length (rotlA k l) = length l.
+Proof. unfold rotlA. rewrite app_length, skipn_length, firstn_length. lia. Qed.
+Lemma rotlA_inverse {A} k (l : list A) : (k <= length l)%nat -> rotlA (length l - k) (rotlA k l) = l.
+Proof. intros L. unfold rotlA.
+  assert (E : length (skipn k l) = (length l - k)%nat) by apply skipn_length.
+  rewrite skipn_app, firstn_app, E, Nat.sub_diag. simpl.
+  rewrite <- E at 1. rewrite skipn_all. rewrite <- E at 1. rewrite firstn_all. simpl.
+  rewrite app_nil_r. apply firstn_skipn. Qed.
+Definition fftshift0 {A} (l : list A) : list A := rotlA (length l - length l / 2) l.
+Definition ifftshift0 {A} (l : list A) : list A := rotlA (length l / 2) l.
+Lemma fftshift0_ifftshift0 {A} (l : list A) : fftshift0 (ifftshift0 l) = l.
+Proof. unfold fftshift0, ifftshift0. rewrite rotlA_length. apply rotlA_inverse. apply Nat.div_le_upper_bound; lia. Qed.
+Lemma ifftshift0_fftshift0 {A} (l : list A) : ifftshift0 (fftshift0 l) = l.
+Proof. unfold fftshift0, ifftshift0. rewrite rotlA_length.
+  assert (L : (length l / 2 <= length l)%nat) by (apply Nat.div_le_upper_bound; lia).
+  replace (length l / 2)%nat with (length l - (length l - length l / 2))%nat at 1 by lia.
+  apply rotlA_inverse. lia. Qed.
+Lemma rotlA_map {A B} (f : A -> B) k l : rotlA k (map f l) = map f (rotlA k l).
+Proof. unfold rotlA. rewrite map_app, firstn_map, skipn_map; auto. Qed.
+Lemma wfM_rotlA n k (X : mat) : wfM R n X -> wfM R n (rotlA k X).
+Proof. unfold wfM, rotlA; intros W. apply Forall_app; split.
+  - rewrite <- (firstn_skipn k X) in W. apply Forall_app in W; tauto.
+  - apply wfM_firstn; auto. Qed.
+End Lift2D.
+
+(* ------------------------------------------------------------------ *)
+(* FFT2D (fft2d.py; the FFTND classes of fftnd.py place everything identically)
+   on a 2-D array, axes = (0, 1), complex-linear branch.  X : n0 rows x n1
+   columns.  Library primitives (documented behaviour):
+     fft2(x, s=(N0,N1))  = DFT along both axes of x truncated / zero padded to N0 x N1
+                           (norm="ortho": times sqrt(1/(N0 N1)))
+     ifft2(y, s=(N0,N1)) = (1/(N0 N1)) conj-DFT along both axes (ortho: sqrt(1/(N0 N1)))
+   The 2-D transform is modelled as "axis 0 then axis 1" forward and "axis 1
+   then axis 0" backward (the library result is the documented double sum). *)
+Record cfg2 := { d_norm : fnorm; d_n0 : nat; d_n1 : nat; d_sb0 : bool; d_sb1 : bool; d_sa0 : bool; d_sa1 : bool }.
+
+Section FFT2D.
+Variable F : FieldS.
+Add Field Ff2 : (fth F).
+Notation vec := (list F).
+Notation mat := (list (list F)).
+Notation cj := (conj F).
+Variables w0 w1 : F.
+Variables N0 N1 : nat.
+Notation nN0 := (of_nat F N0).
+Notation nN1 := (of_nat F N1).
+Notation nP := (of_nat F (N0 * N1)).          (* np.prod(self.nffts) *)
+Hypothesis w0_unit : w0 * cj w0 = 1.
+Hypothesis w0_orth : forall d, 0 < d -> d < N0 -> bsum (fun k => rpow w0 (d * k)) N0 = 0.
+Hypothesis w1_unit : w1 * cj w1 = 1.
+Hypothesis w1_orth : forall d, 0 < d -> d < N1 -> bsum (fun k => rpow w1 (d * k)) N1 = 0.
+Hypothesis P_nz : nP <> 0.
+Variable sqP : F.
+Hypothesis sqP_sq : sqP * sqP = 1 / nP.
+Notation ms := (msc F).
+
+Definition shB (c : cfg2) (X : mat) : mat :=
+  let X := if d_sb0 c then ifftshift0 X else X in if d_sb1 c then map (ifftshift F) X else X.
+Definition shBi (c : cfg2) (Z : mat) : mat :=
+  let Z := if d_sb1 c then map (fftshift F) Z else Z in if d_sb0 c then fftshift0 Z else Z.
+Definition shA (c : cfg2) (Y : mat) : mat :=
+  let Y := if d_sa0 c then fftshift0 Y else Y in if d_sa1 c then map (fftshift F) Y else Y.
+Definition shAi (c : cfg2) (Y : mat) : mat :=
+  let Y := if d_sa1 c then map (ifftshift F) Y else Y in if d_sa0 c then ifftshift0 Y else Y.
+Definition f0 (x : vec) : vec := dft F w0 N0 (firstn N0 x).
+Definition f1 (x : vec) : vec := dft F w1 N1 (firstn N1 x).
+Definition T2 (c : cfg2) (X : mat) : mat := rowsL F f1 (colsL F f0 (d_n1 c) N0 X).
+Definition I2 (Y : mat) : mat := colsL F (dft F (cj w0) N0) N1 N0 (rowsL F (dft F (cj w1) N1) Y).
+Definition crop2 (c : cfg2) (Z : mat) : mat := map (firstn (d_n1 c)) (firstn (d_n0 c) Z).   (* np.take axis 0, then axis 1 *)
+Definition core_fwd2 (c : cfg2) (X : mat) : mat := shA c (T2 c (shB c X)).
+Definition core_adj2 (c : cfg2) (Y : mat) : mat := shBi c (crop2 c (I2 (shAi c Y))).
+
+Definition scale2 (c : cfg2) : F := match d_norm c with NoneN => nP | OneOverN => 1 / nP | Ortho => 1 end.
+Definition mdiv (X : mat) (s : F) : mat := map (fun r => vdiv F r s) X.
+(* ---- engine = numpy (_FFT2D_numpy) ---- *)
+Definition fwd2_numpy (c : cfg2) (X : mat) : mat :=
+  let X := shB c X in
+  let Y := if is_ortho (d_norm c) then ms sqP (T2 c X) else T2 c X in
+  let Y := match d_norm c with OneOverN => ms (scale2 c) Y | _ => Y end in
+  shA c Y.
+Definition adj2_numpy (c : cfg2) (Y : mat) : mat :=
+  let Y := shAi c Y in
+  let Z := if is_ortho (d_norm c) then ms sqP (I2 Y) else ms (1 / nP) (I2 Y) in
+  let Z := match d_norm c with NoneN => ms (scale2 c) Z | _ => Z end in
+  shBi c (crop2 c Z).
+Definition div2_numpy (c : cfg2) (Y : mat) : mat :=
+  match d_norm c with Ortho => adj2_numpy c Y | _ => mdiv (adj2_numpy c Y) (scale2 c) end.
+(* ---- engine = scipy (_FFT2D_scipy, after the scaling fix: same placement, scipy.fft calls) ---- *)
+Definition fwd2_scipy (c : cfg2) (X : mat) : mat :=
+  let X := shB c X in
+  let Y := if is_ortho (d_norm c) then ms sqP (T2 c X) else T2 c X in
+  let Y := match d_norm c with OneOverN => ms (scale2 c) Y | _ => Y end in
+  shA c Y.
+Definition adj2_scipy (c : cfg2) (Y : mat) : mat :=
+  let Y := shAi c Y in
+  let Z := if is_ortho (d_norm c) then ms sqP (I2 Y) else ms (1 / nP) (I2 Y) in
+  let Z := match d_norm c with NoneN => ms (scale2 c) Z | _ => Z end in
+  shBi c (crop2 c Z).
+Definition div2_scipy (c : cfg2) (Y : mat) : mat :=
+  match d_norm c with Ortho => adj2_scipy c Y | _ => mdiv (adj2_scipy c Y) (scale2 c) end.
+
+Definition fscale2 (c : cfg2) : F := match d_norm c with Ortho => sqP | NoneN => 1 | OneOverN => 1 / nP end.
+Definition dscale2 (c : cfg2) : F := match d_norm c with Ortho => sqP | NoneN => 1 / nP | OneOverN => 1 end.
+
+Lemma iP_nz : 1 / nP <> 0.
+Proof. intros E. assert (H : 1 / nP * nP = r1 F) by (field; exact P_nz).
+  rewrite E in H. apply (F_1_neq_0 (fth F)). rewrite <- H. ring. Qed.
+Lemma mdiv_ms X s : s <> 0 -> mdiv X s = ms (1 / s) X.
+Proof. intros H. unfold mdiv, msc. apply map_ext; intros. apply vdiv_vscale; auto. Qed.
+Lemma ms_eq a b X : a = b -> ms a X = ms b X.
+Proof. intros ->; auto. Qed.
+
+(* linearity of the structural pieces *)
+Lemma map_shift_ms (g : vec -> vec) s X : (forall a x, g (vscale F a x) = vscale F a (g x)) -> map g (ms s X) = ms s (map g X).
+Proof. intros H. apply (rowsL_msc F g s X H). Qed.
+Lemma fftshift0_ms s (Y : mat) : fftshift0 (ms s Y) = ms s (fftshift0 Y).
+Proof. unfold fftshift0, msc. rewrite map_length, rotlA_map; auto. Qed.
+Lemma ifftshift0_ms s (Y : mat) : ifftshift0 (ms s Y) = ms s (ifftshift0 Y).
+Proof. unfold ifftshift0, msc. rewrite map_length, rotlA_map; auto. Qed.
+Lemma mapf_ms s (Y : mat) : map (fftshift F) (ms s Y) = ms s (map (fftshift F) Y).
+Proof. apply map_shift_ms. apply (fftshift_vscale F). Qed.
+Lemma mapi_ms s (Y : mat) : map (ifftshift F) (ms s Y) = ms s (map (ifftshift F) Y).
+Proof. apply map_shift_ms. apply (ifftshift_vscale F). Qed.
+Lemma shA_ms c s Y : shA c (ms s Y) = ms s (shA c Y).
+Proof. unfold shA. destruct (d_sa0 c), (d_sa1 c); rewrite ?fftshift0_ms, ?mapf_ms; auto. Qed.
+Lemma shAi_ms c s Y : shAi c (ms s Y) = ms s (shAi c Y).
+Proof. unfold shAi. destruct (d_sa0 c), (d_sa1 c); rewrite ?mapi_ms, ?ifftshift0_ms; auto. Qed.
+Lemma shBi_ms c s Y : shBi c (ms s Y) = ms s (shBi c Y).
+Proof. unfold shBi. destruct (d_sb0 c), (d_sb1 c); rewrite ?mapf_ms, ?fftshift0_ms; auto. Qed.
+Lemma crop2_ms c s Z : crop2 c (ms s Z) = ms s (crop2 c Z).
+Proof. unfold crop2. rewrite msc_firstn, msc_crop1; auto. Qed.
+Lemma I2_ms s Y : I2 (ms s Y) = ms s (I2 Y).
+Proof. unfold I2. rewrite rowsL_msc by (intros; apply (dft_vscale F)). apply colsL_msc. intros; apply (dft_vscale F). Qed.
+Lemma core_adj2_ms c s Y : core_adj2 c (ms s Y) = ms s (core_adj2 c Y).
+Proof. unfold core_adj2. rewrite shAi_ms, I2_ms, crop2_ms, shBi_ms; auto. Qed.
+
+(* normal forms *)
+Lemma fwd2_numpy_nf c X : fwd2_numpy c X = ms (fscale2 c) (core_fwd2 c X).
+Proof. unfold fwd2_numpy, core_fwd2, fscale2, scale2. destruct (d_norm c); simpl;
+  rewrite ?shA_ms, ?msc_one; auto. Qed.
+Lemma adj2_numpy_nf c Y : adj2_numpy c Y = ms (fscale2 c) (core_adj2 c Y).
+Proof. unfold adj2_numpy, core_adj2, fscale2, scale2. destruct (d_norm c); simpl;
+  rewrite ?msc_msc, ?crop2_ms, ?shBi_ms; auto.
+  apply ms_eq. field. exact P_nz. Qed.
+Lemma div2_numpy_nf c Y : div2_numpy c Y = ms (dscale2 c) (core_adj2 c Y).
+Proof. unfold div2_numpy. rewrite adj2_numpy_nf. unfold dscale2, fscale2, scale2. destruct (d_norm c); auto.
+  - rewrite (mdiv_ms _ _ P_nz), msc_msc. apply ms_eq. field. exact P_nz.
+  - rewrite (mdiv_ms _ _ iP_nz), msc_msc. apply ms_eq. field. split; [exact P_nz | exact (F_1_neq_0 (fth F))]. Qed.
+Lemma fwd2_scipy_nf c X : fwd2_scipy c X = ms (fscale2 c) (core_fwd2 c X).
+Proof. exact (fwd2_numpy_nf c X). Qed.
+Lemma adj2_scipy_nf c Y : adj2_scipy c Y = ms (fscale2 c) (core_adj2 c Y).
+Proof. exact (adj2_numpy_nf c Y). Qed.
+Lemma div2_scipy_nf c Y : div2_scipy c Y = ms (dscale2 c) (core_adj2 c Y).
+Proof. exact (div2_numpy_nf c Y). Qed.
+Theorem fft2_engines_agree c X Y :
+  fwd2_numpy c X = fwd2_scipy c X /\ adj2_numpy c Y = adj2_scipy c Y /\ div2_numpy c Y = div2_scipy c Y.
+Proof. rewrite fwd2_numpy_nf, fwd2_scipy_nf, adj2_numpy_nf, adj2_scipy_nf, div2_numpy_nf, div2_scipy_nf; auto. Qed.
+
+(* shapes and shift inverses *)
+Lemma shB_shape c X : wfM F (d_n1 c) X -> wfM F (d_n1 c) (shB c X) /\ length (shB c X) = length X.
+Proof. intros W. unfold shB, ifftshift0.
+  assert (W1 : wfM F (d_n1 c) (if d_sb0 c then rotlA (length X / 2) X else X)) by (destruct (d_sb0 c); auto using wfM_rotlA).
+  assert (L1 : length (if d_sb0 c then rotlA (length X / 2) X else X) = length X) by (destruct (d_sb0 c); auto using rotlA_length).
+  destruct (d_sb1 c); [|auto]. split; [|rewrite map_length; auto].
+  eapply wfM_map; [|exact W1]. intros; rewrite (ifftshift_length F); auto. Qed.
+Lemma shAi_shA c Y : shAi c (shA c Y) = Y.
+Proof. unfold shAi, shA.
+  assert (E : forall Z : mat, map (ifftshift F) (map (fftshift F) Z) = Z).
+  { intros Z. rewrite map_map. rewrite <- (map_id Z) at 2. apply map_ext; intros; apply (ifftshift_fftshift F). }
+  destruct (d_sa1 c); rewrite ?E; destruct (d_sa0 c); auto using ifftshift0_fftshift0. Qed.
+Lemma shBi_shB c X : shBi c (shB c X) = X.
+Proof. unfold shBi, shB.
+  assert (E : forall Z : mat, map (fftshift F) (map (ifftshift F) Z) = Z).
+  { intros Z. rewrite map_map. rewrite <- (map_id Z) at 2. apply map_ext; intros; apply (fftshift_ifftshift F). }
+  destruct (d_sb1 c); rewrite ?E; destruct (d_sb0 c); auto using fftshift0_ifftshift0. Qed.
+
+Lemma f0_length x : length (f0 x) = N0.
+Proof. unfold f0; apply dft_length. Qed.
+Lemma f1_length x : length (f1 x) = N1.
+Proof. unfold f1; apply dft_length. Qed.
+Lemma inv0 x : (length x <= N0)%nat -> firstn (length x) (dft F (cj w0) N0 (f0 x)) = vscale F nN0 x.
+Proof. intros L. unfold f0. rewrite (@firstn_all2 _ N0 x) by auto.
+  change (firstn (length x) (dft F (cj w0) N0 (dft F w0 N0 x))) with (trunc F (length x) (dft F (cj w0) N0 (dft F w0 N0 x))).
+  rewrite (trunc_dft F) by auto. apply (dft_inversion F w0 N0 w0_unit w0_orth); auto. Qed.
+Lemma inv1 x : (length x <= N1)%nat -> firstn (length x) (dft F (cj w1) N1 (f1 x)) = vscale F nN1 x.
+Proof. intros L. unfold f1. rewrite (@firstn_all2 _ N1 x) by auto.
+  change (firstn (length x) (dft F (cj w1) N1 (dft F w1 N1 x))) with (trunc F (length x) (dft F (cj w1) N1 (dft F w1 N1 x))).
+  rewrite (trunc_dft F) by auto. apply (dft_inversion F w1 N1 w1_unit w1_orth); auto. Qed.
+
+(* the heart: crop (ifft2-core (fft2-core X)) = (N0 N1) . X, using that an operation along
+   the rows commutes with cropping the columns *)
+Lemma crop_I_T c X : wfM F (d_n1 c) X -> length X = d_n0 c -> (d_n0 c <= N0)%nat -> (d_n1 c <= N1)%nat ->
+  crop2 c (I2 (T2 c X)) = ms nP X.
+Proof. intros W Hl L0 L1. unfold crop2, I2, T2.
+  destruct (wfM_colsL F f0 (d_n1 c) N0 X W (fun x _ => f0_length x)) as [WY LY].
+  set (Y := colsL F f0 (d_n1 c) N0 X) in *.
+  unfold rowsL. rewrite map_map. set (h1 := fun y => dft F (cj w1) N1 (f1 y)).
+  assert (Wh : wfM F N1 (map h1 Y)) by (eapply wfM_map; [|exact WY]; intros; unfold h1; apply dft_length).
+  rewrite <- firstn_map.
+  rewrite (colsL_crop1 F (dft F (cj w0) N0) N1 N0 (d_n1 c) (map h1 Y) Wh L1) by (intros; apply dft_length).
+  assert (E1 : map (firstn (d_n1 c)) (map h1 Y) = ms nN1 Y).
+  { rewrite map_map. unfold msc. apply map_ext_in. intros y Hy.
+    assert (Ly : length y = d_n1 c) by (apply (proj1 (Forall_forall _ _) WY); auto).
+    unfold h1. rewrite <- Ly. apply inv1. lia. }
+  rewrite E1. rewrite colsL_msc by (intros; apply (dft_vscale F)). rewrite msc_firstn.
+  unfold Y. rewrite (colsL_compose F f0 (dft F (cj w0) N0) (d_n1 c) N0 N0 X W) by (intros; apply f0_length).
+  rewrite (colsL_crop0 F _ (d_n1 c) N0 (d_n0 c) X W L0) by (intros; apply dft_length).
+  pose proof (colsL_scalar F (fun x => firstn (d_n0 c) (dft F (cj w0) N0 (f0 x))) nN0 (d_n1 c) X W) as E2.
+  rewrite Hl in E2. rewrite E2.
+  2:{ intros x Hx. rewrite <- Hx. apply inv0. lia. }
+  rewrite msc_msc. apply ms_eq. rewrite of_nat_mul. ring. Qed.
+
+Lemma core2_inverse c X : wfM F (d_n1 c) X -> length X = d_n0 c -> (d_n0 c <= N0)%nat -> (d_n1 c <= N1)%nat ->
+  core_adj2 c (core_fwd2 c X) = ms nP X.
+Proof. intros W Hl L0 L1. unfold core_adj2, core_fwd2. rewrite shAi_shA.
+  destruct (shB_shape c X W) as [W1 Hl1].
+  rewrite crop_I_T by (auto; lia). rewrite shBi_ms, shBi_shB; auto. Qed.
+
+(* '/' inverts for every norm; the adjoint inverts for ortho; both shifts on both axes; nffts >= dims *)
+Theorem fft2_div_inverts c X : wfM F (d_n1 c) X -> length X = d_n0 c -> (d_n0 c <= N0)%nat -> (d_n1 c <= N1)%nat ->
+  div2_numpy c (fwd2_numpy c X) = X /\ div2_scipy c (fwd2_scipy c X) = X.
+Proof. intros W Hl L0 L1.
+  assert (E : ms (dscale2 c) (core_adj2 c (ms (fscale2 c) (core_fwd2 c X))) = X).
+  { rewrite core_adj2_ms, core2_inverse, !msc_msc by auto.
+    rewrite <- (msc_one F X) at 2. apply ms_eq. unfold dscale2, fscale2.
+    destruct (d_norm c); try (field; exact P_nz).
+    replace (sqP * sqP * nP) with (1 / nP * nP) by (rewrite <- sqP_sq; ring). field. exact P_nz. }
+  rewrite fwd2_numpy_nf, div2_numpy_nf, fwd2_scipy_nf, div2_scipy_nf; auto. Qed.
+Theorem fft2_unitary_ortho c X : d_norm c = Ortho -> wfM F (d_n1 c) X -> length X = d_n0 c ->
+  (d_n0 c <= N0)%nat -> (d_n1 c <= N1)%nat ->
+  adj2_numpy c (fwd2_numpy c X) = X /\ adj2_scipy c (fwd2_scipy c X) = X.
+Proof. intros Ho W Hl L0 L1. destruct (fft2_div_inverts c X W Hl L0 L1) as [E1 E2].
+  unfold div2_numpy in E1. unfold div2_scipy in E2. rewrite Ho in E1, E2. auto. Qed.
+End FFT2D.
+
+(* a leading batch axis (3-D array, axes = (1, 2)): apply the 2-D operator to every slab *)
+Theorem fft2_batch_div_inverts (F : FieldS) (w0 w1 : F) (N0 N1 : nat) :
+  w0 * conj F w0 = 1 -> (forall d, 0 < d -> d < N0 -> bsum (fun k => rpow w0 (d * k)) N0 = 0) ->
+  w1 * conj F w1 = 1 -> (forall d, 0 < d -> d < N1 -> bsum (fun k => rpow w1 (d * k)) N1 = 0) ->
+  of_nat F (N0 * N1) <> 0 -> forall sqP : F, sqP * sqP = 1 / of_nat F (N0 * N1) ->
+  forall (c : cfg2) (Xs : list (list (list F))),
+    Forall (fun X => wfM F (d_n1 c) X /\ length X = d_n0 c) Xs -> (d_n0 c <= N0)%nat -> (d_n1 c <= N1)%nat ->
+    map (div2_numpy F w0 w1 N0 N1 sqP c) (map (fwd2_numpy F w0 w1 N0 N1 sqP c) Xs) = Xs /\
+    map (div2_scipy F w0 w1 N0 N1 sqP c) (map (fwd2_scipy F w0 w1 N0 N1 sqP c) Xs) = Xs.
+Proof. intros H1 H2 H3 H4 H5 sqP H6 c Xs HX L0 L1. rewrite !map_map.
+  split; rewrite <- (map_id Xs) at 2; apply map_ext_in; intros X HIn;
+  destruct (proj1 (Forall_forall _ _) HX X HIn) as [W Hl];
+  apply (fft2_div_inverts F w0 w1 N0 N1 H1 H2 H3 H4 H5 sqP H6 c X W Hl L0 L1). Qed.
 
 (* ------------------------------------------------------------------ *)
 (* exact instances: Gaussian rationals, N = 1, 2, 4, w = 1, -1, -i     *)
